@@ -56,6 +56,7 @@ def pt_ops(types):
         for b in types:
             ops.append(['set', a, b, [1]])
     ops.append(['set', types[0], types[-1], [2]])
+    ops.append(['set', types[-1], types[0], []])          # a falsy (empty) value is a value, not "unset"
     subs = sublists(types)
     if n <= 3:
         for l1 in subs:
@@ -102,8 +103,8 @@ def pt_step(T, model, types, op):
         val = list(op[3])
         T[op[1], op[2]] = val
         val.append('x')
-        l1 = [op[1]] if isinstance(op[1], str) else op[1]
-        l2 = [op[2]] if isinstance(op[2], str) else op[2]
+        l1 = op[1] if isinstance(op[1], list) else [op[1]]
+        l2 = op[2] if isinstance(op[2], list) else [op[2]]
         for a in l1:
             for b in l2:
                 model[ukey(types, a, b)] = tuple(op[3])
@@ -269,9 +270,11 @@ def vt_ops(types):
     for t in types:
         ops.append(['set', t, 1])
         ops.append(['set', t, 2])
+        ops.append(['set', t, 0])                         # zero is a legal value (e.g. a density), not "unset"
     for l in sublists(types):
         ops.append(['setlist', l, 3])
     ops.append(['setUnset', 9])
+    ops.append(['setUnset', 0.0])
     return ops
 
 
@@ -370,21 +373,29 @@ def _worker(item):
 
 
 ALLTYPES = ['A', 'B', 'C', 'D']
+# other legal label sets: zero-based integers (0 is falsy) and multi-character names (a str key must
+# not be iterated character by character); explored two levels shallower than the letters
+LABELSETS = {'letters': ALLTYPES, 'ints': [0, 1, 2, 3], 'names': ['poly', 'solv', 'ion', 'np']}
 
 
 def run(rec, tier, seed):
     depths = {'quick': {1: 5, 2: 4, 3: 3, 4: 2}, 'thorough': {1: 7, 2: 6, 3: 5, 4: 4}}[tier]
     items = []
-    for n in (1, 2, 3, 4):
-        types = ALLTYPES[:n]
-        items.append(('PairTable', types, [], 0))            # initial state itself
-        for op in pt_ops(types):
-            items.append(('PairTable', types, [op], depths[n]))
-        items.append(('ValueTable', types, [], 0))
-        for op in vt_ops(types):
-            items.append(('ValueTable', types, [op], depths[n] + 1))
+    for lname, labels in LABELSETS.items():
+        for n in (1, 2, 3, 4):
+            types = labels[:n]
+            dep = depths[n] if lname == 'letters' else max(1, depths[n] - 2)
+            if lname != 'letters' and n == 4 and tier == 'quick':
+                continue
+            items.append(('PairTable', types, [], 0))            # initial state itself
+            for op in pt_ops(types):
+                items.append(('PairTable', types, [op], dep))
+            items.append(('ValueTable', types, [], 0))
+            for op in vt_ops(types):
+                items.append(('ValueTable', types, [op], dep + 1))
     core.pmap(_worker, items, rec, chunksize=2)
-    rec.note('bounds', {'depth_by_number_of_types': depths, 'ValueTable_depth': 'PairTable depth + 1'})
+    rec.note('bounds', {'depth_by_number_of_types': depths, 'ValueTable_depth': 'PairTable depth + 1', 'label_sets': LABELSETS,
+                        'depth_for_ints_and_names': 'letters depth - 2'})
     rec.note('alphabets', {'PairTable_ops_by_n': {n: len(pt_ops(ALLTYPES[:n])) for n in (1, 2, 3, 4)},
                            'ValueTable_ops_by_n': {n: len(vt_ops(ALLTYPES[:n])) for n in (1, 2, 3, 4)}})
     rec.note('fixpoint', False)
